@@ -121,7 +121,7 @@ func (s *sys) Apply(op string) string {
 	return fmt.Sprintf("%s%s/%s", obs, after, o.ctl.CurrentRole())
 }
 
-// probe lets quietProbe seconds pass without input, sampling once per second.
+// probe lets quietProbe seconds pass without input, running the evaluate tick and sampling once per second.
 // Everything the controller does in that time (timers firing, grace periods
 // ending) is judged by the same monitors; what remains in_progress afterwards
 // has no transition pending (F6). The sequence of things that happened is the
@@ -140,6 +140,8 @@ func (s *sys) probe() {
 	nlog := len(o.log)
 	for i := 1; i <= quietProbe; i++ {
 		advance(time.Second)
+		o.ctl.VerifC14Tick() // input-free time still has controlLoop's one-second ticker running
+		settle()
 		o.observe()
 		cur := fmt.Sprintf("%s/%s", o.ctl.State(), o.ctl.CurrentRole())
 		if cur != last {
@@ -168,6 +170,14 @@ func (s *sys) probe() {
 			site = "unknown"
 		}
 		o.v("F6-stuck-in-progress", site, "state is still in_progress after %ds without input (no transition pending); entered by %s", quietProbe, site)
+	}
+	// The two waiting states (pending, failback_pending) are transitions in
+	// progress as well: each exists only while its timer (<= 30s) is armed. Being
+	// in one of them after 40s without any activity means the timer is not armed
+	// and nothing will ever end the transition.
+	if st := o.ctl.State(); (st == ha.FailoverStatePending || st == ha.FailoverStateFailbackPending) && quietProbe-lastActivity >= 40 {
+		o.v("F6-stuck-in-progress", "waiting:"+st.String(), "state is still %s after %ds without input and nothing has happened for %ds: its timer is not armed, no transition is pending (role %s, partner healthy=%v)",
+			st, quietProbe, quietProbe-lastActivity, o.ctl.CurrentRole(), o.mon.IsPartnerHealthy())
 	}
 }
 
